@@ -6,6 +6,6 @@ CONSTANTS
   AsIs_D8 = FALSE
   AsIs_D9 = FALSE
 SPECIFICATION Spec
-INVARIANTS TypeOK Bound NoPanic AllClosedAfterEnd LockOK ChanOK
+INVARIANTS TypeOK Bound NoPanic AllClosedAfterEnd LockOK ChanOK NoStuckEnd
 PROPERTIES PopNeverClosed NoCatchAfterEnd EndReturns
 CHECK_DEADLOCK FALSE
